@@ -50,9 +50,22 @@ chk("C14", "exploration", "runtime monitoring: differential execution in two sep
     "The same seeded FAT history is run with the reproducible option and a fixed SOURCE_DATE_EPOCH in two worker processes started 2.2 s apart, in half of the pairs at different start offsets; the volume byte ranges must hash equal and no timestamp decoded from the image by the independent reader may lie near the wall clock. The same GPT/MBR table written twice gives identical bytes; Read followed by Write changes nothing.",
     "The system clock cannot be changed in the sandbox: 'regardless of wall-clock time' is decided for the separation produced plus the leak amplifier.")
 
+chk("C06", "exploration", "runtime monitoring: content-identity tree oracle through the library's reader and through an independent ISO9660 reader (isock)",
+    "Generated workspace trees under {plain, Rock Ridge, Joliet, both} x block sizes 2048/4096/8192 x DeepDirectories x start 0/1 MiB are finalized by the real code; every file has unique content, so the image is matched to the source by content through iso9660.Read (structure, bytes, exact names under RR/Joliet, membership in the documented 8.3 rule otherwise) and through an independent reader walking the primary volume descriptor (same files, extents inside the image, no overlaps).",
+    "Trusts isock (written from ECMA-119/SUSP/RRIP, calibrated on hand-made images); isock rules outside the statement are recorded only. Finalize refusals are observations. Four structural defects of the Joliet/Rock Ridge code are listed as open known findings with cause predicates.")
+chk("C07", "exploration", "runtime monitoring: content-identity tree oracle + differential over compressor/fragment/block-size/cache configurations + independent superblock reader vs the store's write log",
+    "Generated workspace trees are finalized under a matrix of compressors, fragment and block-size options and NoCompress*/NoPad flags, at start 0 or 1 MiB, by a process whose cwd is not the workspace; each image is re-opened and walked with several cache sizes and must equal the source and be identical across configurations; an independent superblock reader checks bytes_used against the highest byte written, table pointers, inode count and block size.",
+    "A Finalize refusal for a tree of directories, files and symlinks is a violation. The NoFragments flag not being honoured by the writer is recorded, not reported (the statement speaks of size fields and content).")
+chk("C16", "exploration", "runtime monitoring: independent tree diff by the harness vs CopyFileSystem/CompareFS results over filesystem pairings and enumerated single-point mutations",
+    "CopyFileSystem over 5 source kinds x 4 destination kinds with generated trees; the re-opened destination is diffed by the harness against the source by content and exact name; CompareFS must accept faithful copies in both orders, reject a real byte flip, and on in-memory trees return nil exactly when the trees are equal over every single-point mutation in both orders.",
+    "Trees restricted to what every destination can represent (no symlinks, FAT-legal names); the >64 MiB streaming path is driven in the thorough tier only.")
+chk("C17", "exploration", "runtime monitoring: Go race detector + content oracle per read + bounded-progress watchdog + LRU structural invariant hook, under injected yields at hook points",
+    "2..32 goroutines with own handles read one squashfs image sequentially and at random offsets under -race for cache sizes {default,0,1,3 blocks}, GOMAXPROCS 1..16, concurrent SetCacheSize, seeded yields/sleeps at the store's ReadAt and at hook points between the cache's critical sections, and a slow-fetch mode; every byte is compared with the known content, completed reads must keep advancing, the cache's list/map invariant is checked after every batch, and race reports are collected.",
+    "'Always finish for every interleaving' is restated as bounded progress on the schedules produced; distinct interleavings are measured by hashing the first 64 hook events of each batch.")
+
 props = [json.loads(l)['id'] for l in open('/verif/properties.jsonl')]
 pending_reason = "check not built yet (work in progress in the order of DESIGN.md §9); runtime monitoring applies to this property"
-hooks_commits = []
+hooks_commits = ['c7d9328']
 m = {"version": 1, "setup_cmd": "./vrun --setup",
      "hooks": {"guard": "verif", "enable": "go build -tags verif ./cmd/vcheck (module verif, replace github.com/diskfs/go-diskfs => /repo)",
                "baseline_off_cmd": "/verif/tools/baseline.sh", "source_commits": hooks_commits, "add_only": True},
